@@ -5,18 +5,35 @@ Open Scope N_scope.
 (* One request against one FS handler.
    Observables: what the PathRewrite function returned (None when there is no rewriter), the response status
    (-1 = the handler panicked), the names passed to the instrumented fs.FS in order (fs.FS mode), and for the
-   default filesystem the absolute (clean) name of the file whose bytes were served (identified by its unique
-   content; compared with the model's names modulo "." and empty segments). *)
+   default filesystem the absolute (clean) name of the file whose bytes were served, or of the directory whose
+   generated index page was served (every file carries its own name as first line, every directory holds a
+   marker file that names it).  The default filesystem cannot be instrumented (osFS is a private type), so
+   the harness also publishes the sandbox tree (`files`, `dirs`: absolute clean names, shard-level constants)
+   and the model must predict WHICH file or listing is served, not only a superset of names. *)
 Inductive c23case :=
-| CFs (cfg : fscfg) (sfx : option bytes) (reqPath host : bytes)
+| CFs (cfg : fscfg) (genIndex : bool) (sfx : option bytes) (reqPath host : bytes)
       (rewritten : option bytes) (status : Z) (opened : list bytes) (served : option bytes).
 
 Definition obeq := option_eqb beq.
 Definition mem (x : bytes) (l : list bytes) : bool := existsb (beq x) l.
 
-Definition corr_ok (c : c23case) : bool :=
+(* default filesystem: what handleRequest serves for filePath, given the tree (names without ".." segments resolve
+   to their lexically clean form): the file itself; for a directory requested with a trailing slash the first
+   existing index file, else the generated listing when GenerateIndexPages; nothing otherwise (302/403/404) *)
+Definition expected_served (files dirs : list bytes) (cfg : fscfg) (genIndex : bool)
+           (filePath : bytes) (ts : bool) : option bytes :=
+  let f := lex_clean filePath in
+  if mem f files then Some f
+  else if ts && mem f dirs then
+    match find (fun n => mem (lex_clean (indexFilePath filePath n)) files) (indexNames cfg) with
+    | Some n => Some (lex_clean (indexFilePath filePath n))
+    | None => if genIndex then Some f else None
+    end
+  else None.
+
+Definition corr_ok (files dirs : list bytes) (c : c23case) : bool :=
   match c with
-  | CFs cfg sfx reqPath host rewritten status opened served =>
+  | CFs cfg genIndex sfx reqPath host rewritten status opened served =>
       let names := map snd (candidate_names cfg reqPath host sfx) in
       (* the rewriter *)
       (match rw cfg, rewrite (rw cfg) (ctxPath reqPath) host with
@@ -28,10 +45,11 @@ Definition corr_ok (c : c23case) : bool :=
       | Panicked => (status =? -1)%Z
       | Reject400 => (status =? 400)%Z && beq (concat opened) [] && obeq served None
       | Reject500 => (status =? 500)%Z && beq (concat opened) [] && obeq served None
-      | Serve path filePath _ =>
+      | Serve path filePath ts =>
           negb (status =? -1)%Z && negb (status =? 400)%Z && negb (status =? 500)%Z &&
           (if osfs cfg
            then match served with Some f => mem f (map lex_clean names) | None => true end
+                && obeq served (expected_served files dirs cfg genIndex filePath ts)
            else match opened with
                 | first :: _ => beq first (match (if trimmedNonEmpty path then sfx else None) with
                                            | Some s => filePath ++ s | None => filePath end)
@@ -45,10 +63,11 @@ Definition has_nul (p : bytes) : bool := existsb (N.eqb 0) p.
 Definition rejected (status : Z) (opened : list bytes) (served : option bytes) : bool :=
   (400 <=? status)%Z && match opened with [] => true | _ => false end && obeq served None.
 
-(* the property, judged on the observables only *)
+(* the property, judged on the observables only.  `inside` is Root itself or Root ++ "/" ++ rel (Spec/Clean.v):
+   a sibling such as Root ++ "-private/secret.txt" or Root ++ ".bak/f" has Root as a string prefix but is outside *)
 Definition prop_ok (c : c23case) : bool :=
   match c with
-  | CFs cfg sfx reqPath host rewritten status opened served =>
+  | CFs cfg genIndex sfx reqPath host rewritten status opened served =>
       (* the path the handler works on: the rewriter's result, or the RFC-normalised request path *)
       let path := match rewritten with Some p => p | None => spec_path reqPath end in
       negb (status =? -1)%Z &&
